@@ -234,6 +234,24 @@ def run(ctx):
         # the separator literal " at "
         sep = [ctx.expr(f, a) for blk, t in ctx.find_calls(f, r"fmt::Arguments::<'_>::new") for a in t["args"][:1]]
         ctx.ob("C04.display.separator", f.key, "' at ' literal", any(" at " in s for s in sep), "format pieces: %s" % sep)
+    # a bundle renders each child as a whole error (message *and* path), never through its kind alone
+    f = ctx.fn("<darling_core::error::kind::ErrorKind as core::fmt::Display>::fmt")
+    if f:
+        shown = []
+        for blk, t in f.calls():
+            c = mir.callee_of(t) or ""
+            if not re.search(r"Argument::<'_>::new_(display|debug|lower_hex)|as core::fmt::(Display|Debug)>::fmt$", c) or not t["args"]:
+                continue
+            a0 = ctx.expr(f, t["args"][0])
+            if "(self as Multiple).0" not in a0:
+                continue
+            ty = " ".join(mir.callee_info(t).get("targs") or [mir.callee_info(t).get("self_ty") or ""]).lstrip("&").strip()
+            shown.append((blk, ty, a0))
+            ctx.ob("C04.display.bundle-shows-whole-children", f.key, "child rendered as %s" % ty, ty == "darling_core::error::Error",
+                   "a member of a bundle is rendered through %s (%s): its ` at a/b/c` path is lost in the bundle's message" % (ty, a0[:100]))
+        ctx.ob("C04.display.bundle-shows-whole-children", f.key, "children are rendered", len(shown) >= 2, "%d renderings of bundle members (the single-member case and the general case)" % len(shown))
+        rep = [h for h in ctx.per_element(f, r"^<darling_core::error::Error as core::fmt::Display>::fmt$|Argument::<'_>::new_display$") if "(self as Multiple).0" in h["source"]]
+        ctx.ob("C04.display.bundle-shows-whole-children", f.key, "every member is rendered", len(rep) == 1 and rep[0]["form"] in ("loop", "adapter"), "%s" % [(h["form"], h["source"][:80]) for h in rep])
     syn_conversion_rules(ctx, "C04.syn")
     # ---- IntoIterator: one level
     f = ctx.fn("<darling_core::error::Error as core::iter::traits::collect::IntoIterator>::into_iter")
